@@ -1,7 +1,8 @@
 # U2 `regs` — Register conversions, RegisterSet, class tables, ecall table (Kani, complete)
 def ob(id_, harness, props, clause, inputs=None, timeout=300, tier='quick', replay=None):
     return {'id': 'regs.' + id_, 'harness': harness, 'props': props, 'kind': 'complete', 'clause': clause,
-            'timeout': timeout, 'tier': tier, 'inputs': inputs or [], 'replay': replay or ['regs', id_]}
+            'timeout': timeout, 'tier': tier, 'inputs': inputs or [], 'replay': replay or ['regs', id_],
+            'search': ['regs', 'search']}
 
 REG = 'parser::register::verif_kani_register::'
 SET = 'cfg::register_set::verif_kani_regset::'
